@@ -3,7 +3,8 @@ import FluentVerif.Conc.Lockset
 in /verif/translator/main.go).  Locks: sessionLock 0, ackLock (the send mutex) 1, errLock 2,
 closeLock 3, listenLock 4, writeLock 5, stateLock 6.  Variables: session 0, transport phase 1,
 wire 2 (every use of the session's connection: writes, the ack read, deadline, close), err 3,
-connState 4, wswrite 5 (the frame-writing methods of the underlying connection), wsread 6, listenGate 7. -/
+connState 4, wswrite 5 (the frame-writing methods of the underlying connection), wsread 6, listenGate 7,
+closeGate 8. -/
 namespace FV.Protect
 open FV.Lk
 
@@ -27,7 +28,9 @@ def wsConnPolicy : List Policy :=
   [rw 4 6, { var := 5, readAlts := [[(5, .ex)]], writeAlts := [[(5, .ex)]] },
    { var := 6, readAlts := [[]], writeAlts := [] },
    -- the admission gate of `Listen` (test of the Listening bit and its setting): under `listenLock`
-   { var := 7, readAlts := [[(4, .ex)]], writeAlts := [[(4, .ex)]] }]
+   { var := 7, readAlts := [[(4, .ex)]], writeAlts := [[(4, .ex)]] },
+   -- the admission gate of `CloseWithMsg` (test of `Closed()` and clearing of the Open bit): under `closeLock`
+   { var := 8, readAlts := [[(3, .ex)]], writeAlts := [[(3, .ex)]] }]
 
 theorem clientPolicy_ok : policyOK { code := [], annot := [], policy := clientPolicy } = true := by decide
 theorem wsClientPolicy_ok : policyOK { code := [], annot := [], policy := wsClientPolicy } = true := by decide
